@@ -6,6 +6,7 @@ import (
 	"fmt"
 	"math/rand/v2"
 	"os"
+	"runtime"
 	"sort"
 	"strconv"
 	"sync"
@@ -230,6 +231,12 @@ func (r *Report) write(done bool) {
 	defer r.mu.Unlock()
 	for name, s := range r.sets {
 		r.observed["distinct:"+name] = int64(len(s))
+	}
+	if done {
+		var ms runtime.MemStats
+		runtime.ReadMemStats(&ms)
+		r.observed["lane_goroutines_at_end"] = int64(runtime.NumGoroutine())
+		r.observed["lane_heap_mb_at_end"] = int64(ms.HeapAlloc >> 20)
 	}
 	dk := make([]string, 0, len(r.distinct))
 	for k := range r.distinct {
